@@ -465,12 +465,69 @@ pub fn check_history(choices: &Vec<u16>) -> Out {
             }
         }
     }
+    // a call by MAST root (`call.0x<digest>`) of a library procedure the long-lived assembler has
+    // already compiled by name
+    let mut soft = vec![];
+    if ch.chance(1, 3) {
+        let (path, alias, name) = u.exports[ch.pick(u.exports.len())].clone();
+        let by_name = format!("use.{path}\nbegin call.{alias}::{name} end\n");
+        let probe = fresh(&u, &libs, false).map_err(|e| Viol::new("C11:universe", e, cj(n)))?;
+        let digest = match vm::catch(|| probe.compile(&by_name)) {
+            Ok(Ok(p)) => match p.root() {
+                CodeBlock::Call(c) => Some(c.fn_hash()),
+                _ => None,
+            },
+            _ => None,
+        };
+        if let Some(d) = digest {
+            let hex: String = d.as_bytes().iter().map(|b| format!("{:02x}", b)).collect();
+            let by_root = format!("begin call.0x{hex} end\n");
+            let cjr = || json!({"libs": u.libs, "kernel": u.kernel, "history": history, "then": [by_name, by_root]});
+            let c = |a: &Assembler, src: &str| vm::catch(|| a.compile(src).map_err(|e| format!("{e}")));
+            let _ = c(&shared, &by_name).map_err(|p| Viol::new(format!("C11:asm-panic:{}", crate::diff::panic_site(&p)), p, cjr()))?;
+            let on_shared = c(&shared, &by_root).map_err(|p| Viol::new(format!("C11:asm-panic:{}", crate::diff::panic_site(&p)), p, cjr()))?;
+            let on_fresh = c(&probe, &by_root);
+            let f2 = fresh(&u, &libs, false).map_err(|e| Viol::new("C11:universe", e, cjr()))?;
+            let on_really_fresh = c(&f2, &by_root).map_err(|p| Viol::new(format!("C11:asm-panic:{}", crate::diff::panic_site(&p)), p, cjr()))?;
+            let _ = on_fresh;
+            classes.push("call-by-mast-root".to_string());
+            if summary(&on_shared) != summary(&on_really_fresh) {
+                soft.push(Viol::new(
+                    "C11:history-dependence:call-by-mast-root",
+                    format!(
+                        "`call.0x<root>` of a library procedure gives {} on an assembler that compiled a call by name before and {} on a fresh one with the same libraries",
+                        summary(&on_shared).chars().take(60).collect::<String>(),
+                        summary(&on_really_fresh).chars().take(60).collect::<String>()
+                    ),
+                    cjr(),
+                ));
+            }
+            if let Ok(p) = &on_shared {
+                let mut targets = vec![];
+                collect(p.root(), p.cb_table(), &mut targets, 0);
+                if let Some(m) = targets.iter().find(|t| t.starts_with("missing:")) {
+                    return Err(Viol::new("C11:call-target-missing", format!("call by MAST root: call target {m} is not in the code block table"), cjr()));
+                }
+                match vm::run(p, &vm::Case::default(), ExecutionOptions::default()) {
+                    vm::Ran::Ok(..) => {}
+                    vm::Ran::Err(e, _) => {
+                        let sig = match e {
+                            ExecutionError::CodeBlockNotFound(_) | ExecutionError::DynamicCodeBlockNotFound(_) => "C11:body-missing-at-run-time",
+                            _ => "C11:generated-program-fails",
+                        };
+                        return Err(Viol::new(sig, format!("call by MAST root: execution fails: {e}"), cjr()));
+                    }
+                    vm::Ran::Panic(pn) => return Err(Viol::new("C11:exec-panic", pn, cjr())),
+                }
+            }
+        }
+    }
     classes.push(format!("history-len~{}", n / 3 * 3));
     classes.push(format!("libs={}", libs.len()));
     if u.kernel.is_some() {
         classes.push("kernel".into());
     }
-    Ok(Info { nontrivial: if n >= 2 || valid < n { Some(fp_str(&history.join("|"))) } else { None }, classes, sample: Some(json!({"history": history.iter().take(3).collect::<Vec<_>>(), "libs": u.libs.len()})), evals: n as u64, ..Info::default() })
+    Ok(Info { nontrivial: if n >= 2 || valid < n { Some(fp_str(&history.join("|"))) } else { None }, classes, sample: Some(json!({"history": history.iter().take(3).collect::<Vec<_>>(), "libs": u.libs.len()})), evals: n as u64, soft, ..Info::default() })
 }
 
 /// the same program with one procedure reached directly or through a (re-)re-export
